@@ -13,8 +13,8 @@ from .hist import Index
 MAJORS = [0, 1, 2, 3, 4]
 MINORS = [0, 10, 11, 4294967295]
 LONG = "n" * 63
-API_NAMES = ["", "simdev", "other", "sïmdëv", "SimDev", "sim_dev", LONG + "x", "simdev\n", "sim\u200bdev"]  # (the last two: names that do not print)
-NOISE_NAMES = [None, "simdev", "other", "", "SIMDEV", "sim_dev", LONG + "-2"]
+API_NAMES = ["", "simdev", "other", "sïmdëv", "SimDev", "sim_dev", LONG + "x", "simdev\n", "sim\u200bdev", "dev"]  # (names that do not print; a name that is part of the expected one)
+NOISE_NAMES = [None, "simdev", "other", "", "SIMDEV", "sim_dev", LONG + "-2", "sim"]
 ORDERS = ["normal", "split", "reversed", "dup_hello", "one_by_one", "second_hello"]
 
 
